@@ -104,9 +104,9 @@ CLAIMED = {
             "concurrent executions (hook events sequenced under jiff's locks) must be behaviours of the model.",
             "Hooks under cfg(jiff_verif): mock monotonic clock, ttl setter, critical-section events. Staleness within the "
             "ttl is the documented design and is allowed. The concatenated (Android tzdata) database has its own model, "
-            "ConcatCache.tla (one file for all zones, no name index), model-checked the same way and bound by replaying "
-            "TLC-generated histories on TimeZoneDatabase::from_concatenated_path; its concurrent executions are not "
-            "trace-validated (the zoneinfo ones are).",
+            "ConcatCache.tla (one file for all zones, no name index), model-checked the same way and bound in both "
+            "directions too: TLC-generated histories replayed on TimeZoneDatabase::from_concatenated_path, and recorded "
+            "concurrent executions validated by Trace_ConcatCache.tla.",
             "TLA+ model checking of the cache protocol + behaviour replay + concurrent trace validation", "DESIGN.md §5 C19"),
     "C20": ("model_checking",
             "TzHandle.tla models handle slots and reference counted heap objects; TLC checks RcInv / FreeInv / "
